@@ -408,6 +408,27 @@ fn main() {
         }
     }
 
+    // ------------------------------------------------------------------ empty series (trivial, outside C03's quantifier)
+    // The model reproduces what the code does: Vec / caller-buffer paths return an empty result; the iterator
+    // body (VecDeque returned) of the cmp family asserts `window > 0` on the window clamped to 0 (see notes/C03.md).
+    {
+        let xs: Vec<f64> = vec![];
+        let dq: VecDeque<f64> = VecDeque::new();
+        for fi in 0..FNS.len() {
+            for w in [1usize, 3] {
+                let mp: Option<usize> = None;
+                em.case("exact", &format!("fn={} ty=f64 be=vec kind=single len=0 nt=0", FNS[fi]),
+                    &format!("fn={} ty=f64 be=vec w={} mp=None xs=[]", FNS[fi], w),
+                    || term(false, fi, "f", true, w, mp, "[]"),
+                    || call_ret!(fi, xs, w, mp, Vec<f64>, f64, Vec<f64>, f64));
+                em.case("exact", &format!("fn={} ty=f64 be=deque kind=single len=0 nt=0", FNS[fi]),
+                    &format!("fn={} ty=f64 be=deque w={} mp=None xs=[]", FNS[fi], w),
+                    || term(false, fi, "f", false, w, mp, "[]"),
+                    || call_ret!(fi, dq, w, mp, Vec<f64>, f64, Vec<f64>, f64));
+            }
+        }
+    }
+
     // ------------------------------------------------------------------ hostile floats (order kernels only)
     let nh = if thorough { 600 } else { 120 };
     for _ in 0..nh {
